@@ -7,6 +7,7 @@ for feasibility and its alternatives are queued.
 """
 from __future__ import annotations
 
+import os
 import time
 import z3
 
@@ -15,18 +16,38 @@ import threading
 
 
 def timed_check(solver, timeout_s):
-    """solver.check() with a hard wall-clock limit (z3's own timeout is not always honoured
-    inside the sequence solver): the context is interrupted from a timer thread"""
-    ctx = solver.ctx
-    timer = threading.Timer(timeout_s, ctx.interrupt)
-    timer.daemon = True
-    timer.start()
+    """solver.check() under z3's own timeout (set by the caller).  A hard wall-clock limit is
+    enforced one level up: every function is verified in its own process, which is killed when
+    it exceeds its budget (=> undecided, never a verdict).  Interrupting the context from a
+    timer thread was tried and abandoned: a late interrupt corrupts the incremental solver."""
     try:
         return solver.check()
     except z3.Z3Exception:
         return z3.unknown
-    finally:
-        timer.cancel()
+
+
+_qcache = {}
+
+
+def _has_quantifier(f):
+    k = f.get_id()
+    r = _qcache.get(k)
+    if r is None:
+        r = False
+        stack = [f]
+        seen = set()
+        while stack:
+            x = stack.pop()
+            if z3.is_quantifier(x):
+                r = True
+                break
+            i = x.get_id()
+            if i in seen:
+                continue
+            seen.add(i)
+            stack.extend(x.children())
+        _qcache[k] = r
+    return r
 
 
 class PathEnd(Exception):
@@ -60,8 +81,6 @@ class PathCtx:
         self.assumptions = []  # (origin, formula)
         self.alternatives = []
         self.obligations = []
-        self.solver = z3.Solver()
-        self.solver.set("timeout", explorer.branch_timeout_ms)
         self.fresh_counter = {}
         self.trace = []
         self.cur_line = 0
@@ -82,20 +101,13 @@ class PathCtx:
         if z3.is_true(f):
             return
         self.pc.append(f)
-        self.solver.add(f)
         self.assumptions.append((origin, f))
         if z3.is_false(f):
             self.ex.false_assumes.append((origin, self.cur_line))
             raise PathEnd()
 
     def _feasible(self, cond):
-        self.solver.push()
-        self.solver.add(cond)
-        self.ex.solver_calls += 1
-        t0 = time.time()
-        r = timed_check(self.solver, self.ex.branch_timeout_ms / 1000.0 + 0.5)
-        self.ex.solver_time += time.time() - t0
-        self.solver.pop()
+        r = self._query([cond], self.ex.branch_timeout_ms)
         return r != z3.unsat  # unknown counts as feasible (sound: more paths)
 
     def implied(self, f, timeout_ms=300):
@@ -107,15 +119,31 @@ class PathCtx:
             return True
         if z3.is_false(f):
             return False
-        self.solver.push()
-        self.solver.add(z3.Not(f))
-        self.solver.set("timeout", timeout_ms)
-        try:
-            r = timed_check(self.solver, timeout_ms / 1000.0 + 0.2)
-        finally:
-            self.solver.set("timeout", self.ex.branch_timeout_ms)
-            self.solver.pop()
+        r = self._query([z3.Not(f)], timeout_ms)
         return r == z3.unsat
+
+    def _query(self, extra, timeout_ms):
+        """non-incremental query: pc + extra in a fresh solver (z3's incremental mode hangs in
+        push() on some string/quantifier states and ignores its timeout there)"""
+        s = z3.Solver()
+        s.set("timeout", timeout_ms)
+        for f in self.pc:
+            # quantified assumptions (loop invariants, list axioms) are left out of feasibility /
+            # implication side-queries: a weaker antecedent keeps both uses sound (an "unsat" under
+            # fewer assumptions is still unsat) and keeps z3 away from the string+quantifier
+            # combinations on which its soft timeout is not honoured
+            if _has_quantifier(f):
+                continue
+            s.add(f)
+        for f in extra:
+            s.add(f)
+        if os.environ.get("PYVC_DUMP"):
+            open(os.environ["PYVC_DUMP"], "w").write(s.to_smt2())
+        self.ex.solver_calls += 1
+        t0 = time.time()
+        r = timed_check(s, timeout_ms / 1000.0)
+        self.ex.solver_time += time.time() - t0
+        return r
 
     def choose(self, conds, what="choice"):
         """pick one of several alternatives, each guarded by a z3 Bool.
@@ -138,7 +166,6 @@ class PathCtx:
         c = conds[d]
         if not z3.is_true(c):
             self.pc.append(c)
-            self.solver.add(c)
         return d
 
     def branch(self, cond, what="if"):
